@@ -4,6 +4,7 @@ CONSTANTS
   MaxSeg = 24
   MaxSize = 60
   MaxOps = 6
+  MaxTime = 1
   MaxAppends = 5
 INVARIANTS TypeOK
 CHECK_DEADLOCK FALSE
